@@ -1,7 +1,7 @@
 #!/bin/bash
 # Build the framework offline from files on disk (also warms the Go build cache).
 set -e
-cd /verif
+cd "$(dirname "$0")"
 . ./env.sh
 mkdir -p .build evidence replays
 python3 tools/genoverlay.py .build/overlay
